@@ -106,6 +106,16 @@ def module_state():
                 except Exception:
                     r = 'unrepr'
                 out.append((name, k, h(r)))
+            elif isinstance(v, type) and getattr(v, '__module__', '') == name:
+                # class-level containers (parser tables, templates) of the classes the module defines
+                for ck, cv in sorted(vars(v).items()):
+                    if ck.startswith('__') or not isinstance(cv, (dict, list, set, frozenset, tuple)):
+                        continue
+                    try:
+                        r = repr(sorted(cv.items(), key=repr)) if isinstance(cv, dict) else repr(sorted(cv, key=repr)) if isinstance(cv, (set, frozenset)) else repr(cv)
+                    except Exception:
+                        r = 'unrepr'
+                    out.append((name, f'{k}.{ck}', h(r)))
     from regions.core.registry import RegionsRegistry
     out.append(('registry', repr(sorted(map(repr, RegionsRegistry.registry.keys())))))
     return tuple(out)
@@ -192,10 +202,26 @@ class Pool:
         self.other_sky = skymakers[0]()
         self.tmp = None
         self.masks = {}
+        from astropy.table import QTable
+        tbl = QTable()
+        tbl['SHAPE'] = ['CIRCLE', '!Box   ', 'Ellipse']
+        tbl['X'] = [[10.0, 0], [20.0, 0], [30.5, 0]] * u.pix
+        tbl['Y'] = [[12.0, 0], [22.0, 0], [32.5, 0]] * u.pix
+        tbl['R'] = [[4.0, 0], [6.0, 3.0], [5.0, 2.0]] * u.pix
+        tbl['ROTANG'] = [0.0, 30.0, 45.0] * u.deg
+        self.foreign = {
+            'crtf_ellipse': '#CRTFv0\nellipse[[10deg, 20deg], [3arcsec, 2arcsec], 30deg], coord=J2000\nrotbox[[10deg, 20deg], [3arcsec, 2arcsec], 10deg]\n',
+            'crtf_noangle': '#CRTFv0\nellipse[[10deg, 20deg], [3arcsec, 2arcsec]], coord=J2000\n',
+            'crtf_rotbox_noangle': '#CRTFv0\nrotbox[[10deg, 20deg], [3arcsec, 2arcsec]]\n',
+            'crtf_two_globals': '#CRTFv0\nglobal coord=GALACTIC, color=blue\nglobal linewidth=2\ncircle[[10deg, 20deg], 3arcsec]\n',
+            'ds9_upper': 'IMAGE\nCIRCLE(1,2,3) # TEXT={a; b} TAG={t1} TAG={group 2}\nvector(1,2,3,4)\nbox(1,2,3,4,5)\n',
+            'ds9_multi': 'fk5;annulus(1,2,1",2",3");ellipse(1,2,1",2",2",4",30)\nphysical;circle(1,2,3)\n',
+            'fits_table': tbl,
+        }
 
     def fingerprint(self):
         return (tuple((k, fp(v)) for k, v in sorted(self.objs.items())), fp(self.parts), fp(self.other_pix), fp(self.other_sky),
-                fp(self.image), fp(self.pix), fp(self.skyc), h(self.wcs.to_header_string()), fp(self.rot_angle), fp(self.rot_center))
+                fp(self.image), fp(self.pix), fp(self.skyc), h(self.wcs.to_header_string()), fp(self.rot_angle), fp(self.rot_center), fp(self.foreign['fits_table']))
 
     # ---- operations -------------------------------------------------------------------------------
     def mutate(self, o):
@@ -296,6 +322,19 @@ class Pool:
                 return Regions.parse(ser, format=fmt)
             except (ValueError, TypeError, KeyError, AttributeError) as ex:
                 return ex
+        if op == 'parse_foreign':
+            # text / tables that did not come from this package's writers: unusual but legal forms, and forms the reader refuses.
+            # Whatever the answer is (regions or an exception), it may depend on nothing but the input, and the input stays as it was.
+            name = sorted(self.foreign)[(CATS.index(o) + k) % len(self.foreign)]
+            src = self.foreign[name]
+            fmt = name.split('_')[0]
+            import warnings
+            try:
+                with warnings.catch_warnings():
+                    warnings.simplefilter('ignore')
+                    return [name, Regions.parse(src, format=fmt)]
+            except Exception as ex:  # noqa
+                return [name, ex]
         if op == 'slice':
             lst = obj if is_list else Regions([obj])
             return [lst[0:2], lst[::-1], lst[0], len(lst)]
